@@ -36,6 +36,10 @@ def execute(c):
         o = np.array(ORGS[c["place"]], dtype=np.float64)
         if c["unit"] >= 3:
             o = o * u            # the tree stores float32 coordinates: the offset is scaled with the unit, or it would swamp the spacings
+        if "rnd" in c:           # a seeded random direction and a small offset
+            rr = np.random.default_rng(c["rnd"])
+            d = rr.normal(size=3); d /= np.linalg.norm(d)
+            o = rr.uniform(-20, 20, size=3)
         xyz = [o + d * (row[1] * u) for row in t]
     else:
         xyz = [np.array(p, dtype=np.float64) * u for p in c["xyz"]]
@@ -122,6 +126,11 @@ def run(ctx):
     ext = [dict(c, unit=3 + k % 2) for k, c in enumerate(deep[:: (3 if q else 1)])]
     p = ctx.write_cases("extreme-units", ext)
     ctx.run_cases("extreme-units", ext, p, execute, "Judge_VolTree", keyfn, nontrivial, per_case_timeout=300)
+    rnd = [dict(c, rnd=ctx.seed * 100003 + 11 * k + j) for k, c in enumerate(cases) for j in range(1 if q else 4)]
+    if q:
+        rnd = rnd[::4]
+    p = ctx.write_cases("random-orientations", rnd)
+    ctx.run_cases("random-orientations", rnd, p, execute, "Judge_VolTree", keyfn, nontrivial, per_case_timeout=300)
     lc = lattice_cases(ctx, 150 if q else 2000)
     p = ctx.write_cases("lattice", lc)
     ctx.run_cases("lattice", lc, p, execute, "Judge_VolTree", keyfn, nontrivial)
